@@ -107,6 +107,9 @@ class Prop:
     def after_init(self, ex, cfg):
         pass
 
+    def make_exec(self, root, trace):
+        return Exec(root, trace)
+
     def _result(self, ex, trace, viol):
         return {"violation": viol, "trace": trace, "ops": ex.op_counts, "probes": ex.probes,
                 "faults": ex.faults, "abstract": self.abstract(ex, trace),
@@ -118,7 +121,7 @@ class Prop:
     def run_generated(self, rng, root, tier, index, full_digests=False):
         trace = self.header(rng, tier, index)
         trace["ops"] = []
-        ex = Exec(root, trace)
+        ex = self.make_exec(root, trace)
         ex.full_digests = full_digests
         cfg = trace.get("cfg", {})
 
@@ -131,7 +134,7 @@ class Prop:
 
     def run_trace(self, trace, root, full_digests=False):
         trace = {k: v for k, v in trace.items() if k not in ("violation",)}
-        ex = Exec(root, trace)
+        ex = self.make_exec(root, trace)
         ex.full_digests = full_digests
         viol = self._drive(ex, trace, iter(list(trace["ops"])))
         return self._result(ex, trace, viol)
